@@ -281,7 +281,8 @@ impl AsmLine {
                 let mut raw = 0x6000;
                 raw |= (*dest as u16) << 9;
                 raw |= (*src_reg as u16) << 6;
-                raw |= *offset as u16;
+                // Offset is a 6-bit two's-complement field
+                raw |= (*offset as u16) & 0x3F;
                 Ok(raw)
             }
             AirStmt::LoadEAddr { dest, src_label } => {
@@ -326,7 +327,8 @@ impl AsmLine {
                 let mut raw = 0x7000;
                 raw |= (*src_reg as u16) << 9;
                 raw |= (*dest_reg as u16) << 6;
-                raw |= *offset as u16;
+                // Offset is a 6-bit two's-complement field
+                raw |= (*offset as u16) & 0x3F;
                 Ok(raw)
             }
             // In order to be able to do push, pop, call and rets with the same instruction, a new format
